@@ -104,16 +104,30 @@ def clex_modes():
     src = open(os.path.join(REPO, 'clex/driver.c')).read()
     m = re.search(r'int\s+main\s*\(', src)
     main = src[m.start():]
+    macros = {}
+    for f in ('clex/defs.h', 'clex/driver.c'):
+        for mm in re.finditer(r'^\s*#\s*define\s+(\w+)\s+\(?\s*(-?\d+)\s*\)?\s*$', open(os.path.join(REPO, f)).read(), re.M):
+            macros[mm.group(1)] = int(mm.group(2))
+
+    def const(tok):
+        if re.fullmatch(r'-?\d+', tok):
+            return int(tok)
+        if tok in macros:
+            return macros[tok]
+        raise TranslatorError(f'clex: bound {tok!r} is neither a literal nor a #define of an integer')
+
     exact = re.findall(r'strcmp\s*\(\s*cmd\s*,\s*"([^"]+)"\s*\)\s*==\s*0', main)
     pref = []
     for mm in re.finditer(r'strncmp\s*\(\s*cmd\s*,\s*"([^"]+)"\s*,\s*(\d+)\s*\)\s*==\s*0\s*\)\s*\{(.*?)\}', main, re.S):
         p, n, body = mm.group(1), int(mm.group(2)), mm.group(3)
         if len(p) != n:
             raise TranslatorError(f'clex: strncmp length {n} does not match prefix {p!r}')
-        a = re.search(r'assert\s*\(\s*n_toks\s*>\s*(\d+)\s*&&\s*n_toks\s*<=\s*(\d+)\s*\)', body)
+        a = re.search(r'assert\s*\(\s*n_toks\s*(>=?)\s*(\w+)\s*&&\s*n_toks\s*(<=?)\s*(\w+)\s*\)', body)
         if not a or f'&cmd[{n}]' not in body:
             raise TranslatorError(f'clex: bounds of mode {p!r} not recognised')
-        pref.append((p, int(a.group(1)), int(a.group(2))))
+        lo, hi = const(a.group(2)), const(a.group(4))
+        # stored as an exclusive lower and an inclusive upper bound
+        pref.append((p, lo if a.group(1) == '>' else lo - 1, hi if a.group(3) == '<=' else hi - 1))
     if not exact or not pref:
         raise TranslatorError('clex mode chain not recognised')
     return exact, pref
